@@ -236,6 +236,10 @@ func (k c14) Run(c *mon.Ctx, workload string, i int64) {
 			c.Violate("interrupted-run-returned-error:"+workload, fmt.Sprintf("%s: %s\n%s", where, drive.ErrString(o.Err), srcDump(cs.Srcs)), cse)
 			return false
 		}
+		if mode == "poll" && rs.StmtsAfterFire > 0 {
+			c.Violate("statement-started-after-signal-observed:"+workload, fmt.Sprintf("%s: %d statement(s) were started after poll %d had answered true (nothing may execute after the signal was observed)\n%s", where, rs.StmtsAfterFire, rs.FiredPoll, srcDump(cs.Srcs)), cse)
+			return false
+		}
 		tr := pEvents(rs.Events)
 		// nothing after the signal was observed / at most one after step S
 		late := 0
